@@ -1000,3 +1000,43 @@ package main
 //@   at after call frt.Destr2#0: P = ret
 //@   at after call ExprToType#0: TT = ret
 //@   at before call exaustiveCheck#0: US = us
+
+// C03: partial application - a closure over the missing parameters: supplied arguments first (in source
+// order), then _r0.._rk in order; closure parameters typed by the missing parameter types; the callee is
+// referenced like in a full application (explicit type arguments kept).
+//@ func fcToFuncType
+//@   trusted
+//@   panics may
+//@   returns fc_functype(fc)
+//@   note abstract: the function type of the callee (inference context)
+
+//@ func ftiToParamName
+//@   props C03
+//@   panics never
+//@   returns "_r" + fmtverb("d", i)
+
+//@ func ntpairToParam
+//@   props C03
+//@   panics never
+//@   returns ntp.E0 + " " + tGo(ntp.E1)
+
+//@ func fcPartialApplyGo
+//@   props C03
+//@   ghost N string               -- the emitted callee reference (varRefToGo)
+//@   ghost TA []string            -- its emitted explicit type arguments
+//@   ghost RN []string            -- names of the closure parameters
+//@   ghost PP []string            -- closure parameter declarations
+//@   ghost A []string             -- emitted supplied arguments
+//@   requires partial: len(fc_functype(fc).Targets) >= 1 && 0 <= len(fc.Args) && len(fc.Args) <= len(fc_functype(fc).Targets) - 1
+//@   panics may
+//@   ensures text: result == "(func (" + join_prefix(PP, ", ", len(fc_functype(fc).Targets) - 1 - len(fc.Args)) + ") " + ite(fc_functype(fc).Targets[len(fc_functype(fc).Targets) - 1] == New_FType_FUnit, "{ ", tGo(fc_functype(fc).Targets[len(fc_functype(fc).Targets) - 1]) + "{ return ") + N + "(" + join_prefix(A, ", ", len(fc.Args)) + ", " + join_prefix(RN, ", ", len(fc_functype(fc).Targets) - 1 - len(fc.Args)) + ") })"
+//@   ensures closure-params: forall k int :: 0 <= k && k < len(fc_functype(fc).Targets) - 1 - len(fc.Args) ==> RN[k] == "_r" + fmtverb("d", k) && PP[k] == RN[k] + " " + tGo(fc_functype(fc).Targets[len(fc.Args) + k])
+//@   ensures supplied-args: forall k int :: 0 <= k && k < len(fc.Args) ==> A[k] == eGo(fc.Args[k])
+//@   ensures callee-plain: is(VarRef_VRVar, fc.TargetFunc) ==> N == VarRef_VRVar_Value(fc.TargetFunc).Name
+//@   ensures callee-explicit: is(VarRef_VRSVar, fc.TargetFunc) ==> N == VarRef_VRSVar_Value(fc.TargetFunc).Var.Name + ite(len(VarRef_VRSVar_Value(fc.TargetFunc).SpecList) == 0, "", "[" + join_prefix(TA, ", ", len(VarRef_VRSVar_Value(fc.TargetFunc).SpecList)) + "]")
+//@   ensures callee-type-args: is(VarRef_VRSVar, fc.TargetFunc) ==> (forall k int :: 0 <= k && k < len(VarRef_VRSVar_Value(fc.TargetFunc).SpecList) ==> TA[k] == tGo(VarRef_VRSVar_Value(fc.TargetFunc).SpecList[k]))
+//@   at after call slice.Mapi#0: RN = ret
+//@   at after call slice.Map#0: PP = ret
+//@   at after call varRefToGo#0: N = ret
+//@   at after call varRefToGo#0: TA = c_M
+//@   at after call slice.Map#1: A = ret
